@@ -49,6 +49,10 @@ LibraryEvent(e) == e.ev \in {"cb.commit", "cb.round", "send", "spi.enter", "main
                              "main.run.start", "worker.run.start", "proposal.made"}
 
 Judge(e) ==
+  \* ---------------- a run that did not end: the driver made an API call that never returned, or the two loops wait for each other.
+  \* (C12: wedged for good; C14: a sync that never takes effect; C15: a consumer call nobody releases; C16: no shutdown)
+  /\ Chk(e.ev # "hang", "c12_run_did_not_end") /\ Chk(e.ev # "hang", "c14_run_did_not_end")
+  /\ Chk(e.ev # "hang", "c15_run_did_not_end") /\ Chk(e.ev # "hang", "c16_run_did_not_end")
   \* ---------------- C13
   /\ Chk(e.ev = "cb.commit" => e.h > s.lastCommit, "c13_commit_heights_not_increasing")
   /\ Chk(e.ev = "cb.round" => e.h > s.lastRound, "c13_round_heights_not_increasing")
